@@ -10,7 +10,7 @@ import sys
 from typing import Any, Dict, List, Optional
 
 from ..common import CaseTimeout
-from ..sim.world import quiet_logging
+from ..sim.world import debug_logging, quiet_logging
 
 TICK_CAP = 3000
 
@@ -129,7 +129,7 @@ async def settle() -> bool:
     return False
 
 
-def run_in_fresh_loop(coro_fn: Any) -> Any:
+def run_in_fresh_loop(coro_fn: Any, debug_log: bool = False) -> Any:
     """Runs `await coro_fn()` in a fresh loop with stdout/stderr captured; returns (result, stdout, stderr, error)."""
     quiet_logging()
     import warnings
@@ -141,6 +141,8 @@ def run_in_fresh_loop(coro_fn: Any) -> Any:
         lg = logging.getLogger(name)
         lg.handlers[:] = []
         lg.propagate = True
+    if debug_log:
+        debug_logging()       # the deployment has the library's logger at DEBUG: every log call is evaluated and formatted
     from asyncio_taskpool.pool import BaseTaskPool
     BaseTaskPool._pools.clear()
     loop = asyncio.new_event_loop()
